@@ -4,6 +4,9 @@ a  the exposed right-hand side can be compiled: closures handed to numba.njit ca
 b  the right-hand side is Hamilton's: (dH/dP, -dH/dQ) from jac_H slots; evaluators agree; rhs_params order
 c  twins: step kernels / dense cache (term mode), drivers and refiners (trace mode under identical tapes)
 d  dispatch: every integrate() takes the _ham kernel for Hamiltonian systems on the event and non-event branch alike
+
+a-memo  caches of compiled right-hand sides (hv.memo)
+b (added)  right-hand side at special states (a canonical pair / all of Q exactly zero); __init__ stores every Jacobian block unchanged
 """
 from __future__ import annotations
 
